@@ -27,6 +27,10 @@ CFGS = {
     "rculd": ("P_rculd", dict(Threads=T3, MaxObj=6, NAddr=4), INV),
     "2c": ("P_2c", dict(Conts="{1, 2}", NAddr=4, MaxObj=5), INV),
     "2c_nf0": ("P_2c", dict(Conts="{1, 2}", NF=0, NAddr=4, MaxObj=5), INV),
+    "hc": ("P_hc", dict(Threads=T3, Conts="{1, 2}", NF=0, NAddr=4, MaxObj=4, MaxNodes=3), INV),
+    "hc1": ("P_hc1", dict(Threads=T3, NF=0, NAddr=3, MaxObj=3, MaxNodes=3), INV),
+    "bug_hc_space": ("P_hc", dict(Threads=T3, Conts="{1, 2}", NF=0, NAddr=4, MaxObj=4, MaxNodes=3, Bug='"space_hoisted"'), INV),
+    "bug_hc_addr": ("P_hc", dict(Threads=T3, Conts="{1, 2}", NF=0, NAddr=4, MaxObj=4, MaxNodes=3, Bug='"addr_hoisted"'), INV),
     "churn": ("P_churn", dict(MaxObj=3), INV),
     "churn_nf0": ("P_churn", dict(NF=0, MaxObj=3), INV),
     "churn2": ("P_churn2", dict(Threads=T3, MaxObj=3), INV),
